@@ -5,11 +5,14 @@ Parser side only (execution of equal `Cmd` trees is equal by definition of `exec
   one arm, and the scope table agrees with the top-level table on the command flags;
 * in the model parser, a long spelling at the head of the remaining arguments takes exactly the
   step its short spelling takes, in every parser state (top level or inside scopes);
-* an option flag at top level only sets its field: parsing continues with the rest from a state that
-  differs in that field alone (`…_head`). The statement "an option may be moved anywhere among the
-  command flags" is proved here only in this one-step form (`option_position_partial`); the
-  whole-argv commutation is established by the parser correspondence and by the position sweep on the
-  real binary, not by a theorem.
+* an option flag at top level only sets its field (`option_position_partial`, `flag_step`), and
+  **parsing commutes with setting a boolean option for every argument list, scope stack and parser
+  state** (`parse_comm`, by induction over the whole parser): meeting the flag now is the same as setting
+  the option after everything else has been parsed (`option_now_or_at_the_end`), hence the flag may stand
+  before or after any self-contained top-level prefix of command flags (`option_position`, with `-c`, `-m`,
+  `-n` shown to be such prefixes and prefixes closed under concatenation). `-d`/`-t` take an operand and
+  commute with everything except another `-d`/`-t` (last one wins), which is the documented behaviour;
+  that case is covered by `option_operand_head` and the position sweep on the real binary.
 -/
 import Vicut.Gen.Tables
 import Vicut.Model.Args
@@ -108,5 +111,361 @@ theorem option_in_scope_rejected (fileOk : Str → Bool) (rest : List Str) (o : 
 /-! ## Non-vacuity -/
 example : ("-c", "--cut") ∈ documentedPairs ∧ ["-c", "--cut"] ∈ Gen.optsParseArms ∧ ["-c", "--cut"] ∈ Gen.globalArgArms := by decide
 example : startsWithDash (lit ",") = false := by decide
+
+end Vicut.C18
+
+/-! ## Option position: the whole-argv theorem -/
+
+namespace Vicut.C18
+open Vicut
+
+/-- The boolean option flags. -/
+inductive BFlag where
+  | json | trace | linewise | serial | trimFields | keepMode | backup | globalLineNumbers | silent | inplace
+  deriving Repr, DecidableEq
+
+def BFlag.set (k : BFlag) (o : POpts) : POpts :=
+  match k with
+  | .json => { o with json := true }
+  | .trace => { o with trace := true }
+  | .linewise => { o with linewise := true }
+  | .serial => { o with serial := true }
+  | .trimFields => { o with trimFields := true }
+  | .keepMode => { o with keepMode := true }
+  | .backup => { o with backup := true }
+  | .globalLineNumbers => { o with globalLineNumbers := true }
+  | .silent => { o with silent := true }
+  | .inplace => { o with inplace := true }
+
+def mapO (k : BFlag) (st : PState) : PState := { st with opts := k.set st.opts }
+
+@[simp] theorem mapO_stack (k : BFlag) (st : PState) : (mapO k st).stack = st.stack := rfl
+
+theorem mapO_pushCmd (k : BFlag) (st : PState) (c : Cmd) : (mapO k st).pushCmd c = mapO k (st.pushCmd c) := by
+  unfold PState.pushCmd mapO
+  cases hs : st.stack <;> cases k <;> simp [hs, BFlag.set]
+
+theorem mapO_closeOne (k : BFlag) (st : PState) : (mapO k st).closeOne = mapO k st.closeOne := by
+  unfold PState.closeOne
+  cases hs : st.stack with
+  | nil => simp [mapO, hs]
+  | cons f fs =>
+    simp only [mapO_stack, hs]
+    have : ({ mapO k st with stack := fs } : PState) = mapO k { st with stack := fs } := rfl
+    rw [this, mapO_pushCmd]
+
+theorem mapO_closeAllAux (k : BFlag) (fs : List Frame) (st : PState) : closeAllAux fs (mapO k st) = mapO k (closeAllAux fs st) := by
+  induction fs generalizing st with
+  | nil => rfl
+  | cons f fs ih => simp only [closeAllAux]; rw [mapO_closeOne, ih]
+
+theorem mapO_closeAll (k : BFlag) (st : PState) : (mapO k st).closeAll = mapO k st.closeAll := by
+  unfold PState.closeAll; rw [mapO_stack, mapO_closeAllAux]
+
+theorem mapO_peekBreak (k : BFlag) (st : PState) (rest : List Str) : (mapO k st).peekBreak rest = mapO k (st.peekBreak rest) := by
+  unfold PState.peekBreak
+  simp only [mapO_stack]
+  split
+  · split
+    · rfl
+    · exact mapO_closeAll k st
+  · rfl
+
+theorem mapO_repeatLast (k : BFlag) (st : PState) (n r : Nat) : (mapO k st).repeatLast n r = mapO k (st.repeatLast n r) := by
+  unfold PState.repeatLast mapO
+  cases hs : st.stack <;> cases k <;> simp [hs, BFlag.set]
+
+theorem mapO_addFile (k : BFlag) (st : PState) (fileOk : Str → Bool) (a : Str) :
+    (mapO k st).addFile fileOk a = (st.addFile fileOk a).map (mapO k) := by
+  unfold PState.addFile
+  simp only
+  split
+  · cases k <;> simp [mapO, BFlag.set, Except.map] <;> split <;> rfl
+  · rfl
+
+theorem mapO_frame (k : BFlag) (st : PState) (fs : List Frame) :
+    ({ mapO k st with stack := fs } : PState) = mapO k { st with stack := fs } := rfl
+
+/-- Setting the same or another boolean flag commutes. -/
+theorem set_comm (k k' : BFlag) (o : POpts) : k.set (k'.set o) = k'.set (k.set o) := by
+  cases k <;> cases k' <;> rfl
+
+theorem mapO_opts_set (k k' : BFlag) (st : PState) :
+    ({ mapO k st with opts := k'.set (mapO k st).opts } : PState) = mapO k { st with opts := k'.set st.opts } := by
+  simp only [mapO]; rw [set_comm]
+
+theorem set_template (k : BFlag) (o : POpts) (t : Option Str) : ({ k.set o with template := t } : POpts) = k.set { o with template := t } := by
+  cases k <;> rfl
+theorem set_delimiter (k : BFlag) (o : POpts) (t : Option Str) : ({ k.set o with delimiter := t } : POpts) = k.set { o with delimiter := t } := by
+  cases k <;> rfl
+
+end Vicut.C18
+
+namespace Vicut.C18
+open Vicut
+
+theorem map_ok {α β : Type} (f : α → β) (x : α) : (Except.ok x : Except Unit α).map f = .ok (f x) := rfl
+theorem map_err {α β : Type} (f : α → β) : (Except.error () : Except Unit α).map f = .error () := rfl
+
+set_option maxHeartbeats 1000000 in
+/-- **A boolean option set before the remaining arguments are parsed, or after, gives the same
+result**: parsing commutes with setting the flag, for every argument list, every scope stack and
+every parser state. -/
+theorem parse_comm (k : BFlag) (fileOk : Str → Bool) : ∀ (n : Nat) (args : List Str) (st : PState), args.length ≤ n →
+    parseArgs fileOk args (mapO k st) = (parseArgs fileOk args st).map (mapO k) := by
+  intro n
+  induction n with
+  | zero =>
+    intro args st h
+    have : args = [] := List.length_eq_zero_iff.mp (by omega)
+    subst this
+    rw [parseArgs.eq_def, parseArgs.eq_def]
+    simp only [mapO_closeAll, map_ok]
+  | succ n ih =>
+    intro args st h
+    cases args with
+    | nil => rw [parseArgs.eq_def, parseArgs.eq_def]; simp only [mapO_closeAll, map_ok]
+    | cons a rest =>
+      have hl : rest.length ≤ n := by simpa using h
+      have ihr : ∀ (r : List Str) (st' : PState), r.length ≤ rest.length →
+          parseArgs fileOk r (mapO k st') = (parseArgs fileOk r st').map (mapO k) := fun r st' hr => ih r st' (by omega)
+      rw [parseArgs.eq_def, parseArgs.eq_def fileOk (a :: rest) st]
+      simp only [mapO_stack]
+      by_cases h1 : a = lit "-n" ∨ a = lit "--next"
+      · simp only [h1, ↓reduceIte]
+        cases hs : st.stack with
+        | nil => simp only; rw [mapO_pushCmd]; exact ihr _ _ (Nat.le_refl _)
+        | cons f fs =>
+          simp only
+          rw [mapO_frame, mapO_peekBreak]; exact ihr _ _ (Nat.le_refl _)
+      simp only [h1, ↓reduceIte]
+      by_cases h2 : a = lit "-r" ∨ a = lit "--repeat"
+      · simp only [h2, ↓reduceIte]
+        cases hr : repeatOperands rest with
+        | none => rfl
+        | some p =>
+          obtain ⟨nn, r, used⟩ := p
+          simp only
+          rw [mapO_repeatLast, mapO_peekBreak]
+          exact ihr _ _ (by simp)
+      simp only [h2, ↓reduceIte]
+      by_cases h3 : a = lit "-m" ∨ a = lit "--move"
+      · simp only [h3, ↓reduceIte]
+        cases rest with
+        | nil => simp only [mapO_closeAll, map_ok]
+        | cons kk rest' =>
+          simp only
+          by_cases hd : startsWithDash kk = true
+          · simp only [hd, ↓reduceIte, map_err]
+          · simp only [hd, Bool.false_eq_true, ↓reduceIte]
+            rw [mapO_pushCmd, mapO_peekBreak]; exact ihr _ _ (by simp)
+      simp only [h3, ↓reduceIte]
+      by_cases h4 : a = lit "-c" ∨ a = lit "--cut"
+      · simp only [h4, ↓reduceIte]
+        cases rest with
+        | nil => simp only [mapO_closeAll, map_ok]
+        | cons kk rest' =>
+          simp only
+          by_cases hp : (lit "name=").isPrefixOf kk = true
+          · simp only [hp, ↓reduceIte]
+            by_cases hz : st.stack.isEmpty = true ∧ kk.drop 5 = lit "0"
+            · simp only [hz, and_self, ↓reduceIte, map_err]
+            · simp only [hz, ↓reduceIte]
+              cases rest' with
+              | nil => simp only [mapO_closeAll, map_ok]
+              | cons k2 rest'' =>
+                simp only
+                by_cases hd : startsWithDash k2 = true
+                · simp only [hd, ↓reduceIte, map_err]
+                · simp only [hd, Bool.false_eq_true, ↓reduceIte]
+                  rw [mapO_pushCmd, mapO_peekBreak]; exact ihr _ _ (by simp; omega)
+          · simp only [hp, Bool.false_eq_true, ↓reduceIte]
+            by_cases hd : startsWithDash kk = true
+            · simp only [hd, ↓reduceIte, map_err]
+            · simp only [hd, Bool.false_eq_true, ↓reduceIte]
+              rw [mapO_pushCmd, mapO_peekBreak]; exact ihr _ _ (by simp)
+      simp only [h4, ↓reduceIte]
+      cases hg : isGlobalFlag a with
+      | some pol =>
+        simp only
+        cases rest with
+        | nil => simp only [mapO_pushCmd, mapO_closeAll, map_ok]
+        | cons p rest' =>
+          simp only
+          by_cases hd : startsWithDash p = true
+          · simp only [hd, ↓reduceIte, map_err]
+          · simp only [hd, Bool.false_eq_true, ↓reduceIte]
+            rw [mapO_frame]; exact ihr _ _ (by simp)
+      | none =>
+        simp only
+        cases hs : st.stack with
+        | cons f fs =>
+          simp only
+          by_cases he : a = lit "--else"
+          · simp only [he, ↓reduceIte]
+            rw [mapO_frame, mapO_peekBreak]; exact ihr _ _ (Nat.le_refl _)
+          · simp only [he, ↓reduceIte]
+            by_cases hn : a = lit "--end"
+            · simp only [hn, ↓reduceIte]
+              rw [mapO_closeOne, mapO_peekBreak]; exact ihr _ _ (Nat.le_refl _)
+            · simp only [hn, ↓reduceIte, map_err]
+        | nil =>
+          simp only
+          by_cases hb0 : a = lit "--json" ∨ a = lit "-j"
+          · simp only [hb0, ↓reduceIte]
+            refine Eq.trans (congrArg _ ?_) (ihr rest _ (Nat.le_refl _))
+            cases k <;> rfl
+          simp only [hb0, ↓reduceIte]
+          by_cases hb1 : a = lit "--trace"
+          · simp only [hb1, ↓reduceIte]
+            refine Eq.trans (congrArg _ ?_) (ihr rest _ (Nat.le_refl _))
+            cases k <;> rfl
+          simp only [hb1, ↓reduceIte]
+          by_cases hb2 : a = lit "--linewise"
+          · simp only [hb2, ↓reduceIte]
+            refine Eq.trans (congrArg _ ?_) (ihr rest _ (Nat.le_refl _))
+            cases k <;> rfl
+          simp only [hb2, ↓reduceIte]
+          by_cases hb3 : a = lit "--serial"
+          · simp only [hb3, ↓reduceIte]
+            refine Eq.trans (congrArg _ ?_) (ihr rest _ (Nat.le_refl _))
+            cases k <;> rfl
+          simp only [hb3, ↓reduceIte]
+          by_cases hb4 : a = lit "--trim-fields"
+          · simp only [hb4, ↓reduceIte]
+            refine Eq.trans (congrArg _ ?_) (ihr rest _ (Nat.le_refl _))
+            cases k <;> rfl
+          simp only [hb4, ↓reduceIte]
+          by_cases hb5 : a = lit "--keep-mode"
+          · simp only [hb5, ↓reduceIte]
+            refine Eq.trans (congrArg _ ?_) (ihr rest _ (Nat.le_refl _))
+            cases k <;> rfl
+          simp only [hb5, ↓reduceIte]
+          by_cases hb6 : a = lit "--backup"
+          · simp only [hb6, ↓reduceIte]
+            refine Eq.trans (congrArg _ ?_) (ihr rest _ (Nat.le_refl _))
+            cases k <;> rfl
+          simp only [hb6, ↓reduceIte]
+          by_cases hb7 : a = lit "--global-uses-line-numbers"
+          · simp only [hb7, ↓reduceIte]
+            refine Eq.trans (congrArg _ ?_) (ihr rest _ (Nat.le_refl _))
+            cases k <;> rfl
+          simp only [hb7, ↓reduceIte]
+          by_cases hb8 : a = lit "--silent"
+          · simp only [hb8, ↓reduceIte]
+            refine Eq.trans (congrArg _ ?_) (ihr rest _ (Nat.le_refl _))
+            cases k <;> rfl
+          simp only [hb8, ↓reduceIte]
+          by_cases hb9 : a = lit "-i"
+          · simp only [hb9, ↓reduceIte]
+            refine Eq.trans (congrArg _ ?_) (ihr rest _ (Nat.le_refl _))
+            cases k <;> rfl
+          simp only [hb9, ↓reduceIte]
+          by_cases ht : a = lit "--template" ∨ a = lit "-t"
+          · simp only [ht, ↓reduceIte]
+            cases rest with
+            | nil => rfl
+            | cons t rest' =>
+              simp only
+              by_cases hd : startsWithDash t = true
+              · simp only [hd, ↓reduceIte, map_err]
+              · simp only [hd, Bool.false_eq_true, ↓reduceIte]
+                refine Eq.trans (congrArg _ ?_) (ihr rest' _ (by simp))
+                cases k <;> rfl
+          simp only [ht, ↓reduceIte]
+          by_cases hdl : a = lit "--delimiter" ∨ a = lit "-d"
+          · simp only [hdl, ↓reduceIte]
+            cases rest with
+            | nil => rfl
+            | cons t rest' =>
+              simp only
+              by_cases hd : startsWithDash t = true
+              · simp only [hd, ↓reduceIte, map_err]
+              · simp only [hd, Bool.false_eq_true, ↓reduceIte]
+                refine Eq.trans (congrArg _ ?_) (ihr rest' _ (by simp))
+                cases k <;> rfl
+          simp only [hdl, ↓reduceIte]
+          have hst : st = { opts := st.opts, stack := [] } := by cases st; simp_all
+          rw [mapO_addFile]
+          cases hf : st.addFile fileOk a with
+          | error e => rfl
+          | ok st' => simp only [map_ok]; exact ihr _ _ (Nat.le_refl _)
+
+end Vicut.C18
+
+namespace Vicut.C18
+open Vicut
+
+/-- The spelling(s) of a boolean option flag. -/
+def BFlag.texts : BFlag → List Str
+  | .json => [lit "--json", lit "-j"]
+  | .trace => [lit "--trace"]
+  | .linewise => [lit "--linewise"]
+  | .serial => [lit "--serial"]
+  | .trimFields => [lit "--trim-fields"]
+  | .keepMode => [lit "--keep-mode"]
+  | .backup => [lit "--backup"]
+  | .globalLineNumbers => [lit "--global-uses-line-numbers"]
+  | .silent => [lit "--silent"]
+  | .inplace => [lit "-i"]
+
+/-- At top level a boolean option flag only sets its field and parsing goes on. -/
+theorem flag_step (k : BFlag) (t : Str) (ht : t ∈ k.texts) (fileOk : Str → Bool) (rest : List Str) (o : POpts) :
+    parseArgs fileOk (t :: rest) ⟨o, []⟩ = parseArgs fileOk rest ⟨k.set o, []⟩ := by
+  cases k <;> simp only [BFlag.texts, List.mem_cons, List.mem_singleton, List.not_mem_nil, or_false] at ht
+  all_goals (rcases ht with rfl | rfl) <;> (rw [parseArgs.eq_def]; simp [lit, isGlobalFlag, BFlag.set])
+
+/-- **An option flag met at top level is equivalent to setting the option after everything else has been
+parsed**: whatever follows it (commands, scopes, other options, file names). -/
+theorem option_now_or_at_the_end (k : BFlag) (t : Str) (ht : t ∈ k.texts) (fileOk : Str → Bool) (rest : List Str) (o : POpts) :
+    parseArgs fileOk (t :: rest) ⟨o, []⟩ = (parseArgs fileOk rest ⟨o, []⟩).map (mapO k) := by
+  rw [flag_step k t ht]
+  exact parse_comm k fileOk rest.length rest ⟨o, []⟩ (Nat.le_refl _)
+
+/-- A self-contained top-level prefix: it turns the parser state at top level into another top-level
+state, whatever follows. -/
+def TopPrefix (fileOk : Str → Bool) (pre : List Str) (g : POpts → POpts) : Prop :=
+  ∀ post o, parseArgs fileOk (pre ++ post) ⟨o, []⟩ = parseArgs fileOk post ⟨g o, []⟩
+
+/-- **Option position does not matter**: the flag before or after any self-contained top-level prefix
+(one or more complete command flags, options, closed scopes) parses to the same options and commands. -/
+theorem option_position (k : BFlag) (t : Str) (ht : t ∈ k.texts) (fileOk : Str → Bool) (pre post : List Str)
+    (g : POpts → POpts) (hp : TopPrefix fileOk pre g) (o : POpts) :
+    parseArgs fileOk (pre ++ t :: post) ⟨o, []⟩ = parseArgs fileOk (t :: (pre ++ post)) ⟨o, []⟩ := by
+  rw [hp (t :: post) o, option_now_or_at_the_end k t ht, option_now_or_at_the_end k t ht, hp post o]
+
+theorem topPrefix_append (fileOk : Str → Bool) (p1 p2 : List Str) (g1 g2 : POpts → POpts)
+    (h1 : TopPrefix fileOk p1 g1) (h2 : TopPrefix fileOk p2 g2) : TopPrefix fileOk (p1 ++ p2) (g2 ∘ g1) := by
+  intro post o
+  rw [List.append_assoc, h1 (p2 ++ post) o, h2 post (g1 o)]; rfl
+
+/-- Complete command flags are such prefixes: `-c keys`, `-m keys`, `-n`. -/
+theorem topPrefix_cut (fileOk : Str → Bool) (keys : Str) (hk : startsWithDash keys = false) (hn : ¬ (lit "name=") <+: keys) :
+    TopPrefix fileOk [lit "-c", keys] (fun o => { o with cmds := o.cmds ++ [.cut none keys] }) := by
+  intro post o
+  simp only [List.cons_append, List.nil_append]
+  rw [parseArgs.eq_def]
+  have hn' : ¬ ['n', 'a', 'm', 'e', '='] <+: keys := hn
+  simp [lit, isGlobalFlag, hk, hn', PState.pushCmd, PState.peekBreak]
+
+theorem topPrefix_move (fileOk : Str → Bool) (keys : Str) (hk : startsWithDash keys = false) :
+    TopPrefix fileOk [lit "-m", keys] (fun o => { o with cmds := o.cmds ++ [.move keys] }) := by
+  intro post o
+  simp only [List.cons_append, List.nil_append]
+  rw [parseArgs.eq_def]
+  simp [lit, isGlobalFlag, hk, PState.pushCmd, PState.peekBreak]
+
+theorem topPrefix_next (fileOk : Str → Bool) :
+    TopPrefix fileOk [lit "-n"] (fun o => { o with cmds := o.cmds ++ [.next] }) := by
+  intro post o
+  simp only [List.cons_append, List.nil_append]
+  rw [parseArgs.eq_def]
+  simp [lit, PState.pushCmd]
+
+/-- Non-vacuity: `-c e --json -m w` and `--json -c e -m w` (and `-c e -m w --json`) parse alike. -/
+example (fileOk : Str → Bool) (o : POpts) :
+    parseArgs fileOk ([lit "-c", lit "e"] ++ lit "--json" :: [lit "-m", lit "w"]) ⟨o, []⟩
+      = parseArgs fileOk (lit "--json" :: ([lit "-c", lit "e"] ++ [lit "-m", lit "w"])) ⟨o, []⟩ :=
+  option_position .json (lit "--json") (by decide) fileOk _ _ _ (topPrefix_cut fileOk (lit "e") (by decide) (by decide)) o
 
 end Vicut.C18
